@@ -124,7 +124,7 @@ def run(ctx):
     ctx.require(len(rq) == 2, 'R2', 'Request::start / finish_wait not found')
 
     # ---- R3 ---------------------------------------------------------------------------------------------------------------------------------------
-    ctx.rule('R3', 'smpi_switch_data_segment remaps unless the loaded page already belongs to the requested actor', 1)
+    ctx.rule('R3', 'smpi_switch_data_segment remaps unless the loaded page already belongs to the requested actor; it maps that actor\'s region; an address is concerned iff it lies in [start, start + size)', 3)
     sw = P.fn(SW)
     v = A.view(sw)
     shapes = set()
@@ -146,6 +146,55 @@ def run(ctx):
     ok3 = bool(want_same) and bool(want_diff) and all(not s[1] and s[4] == ('bool', True) for s in want_same) and all(s[1] and s[2] and s[3] and s[4] == ('bool', True) for s in want_diff)
     ctx.check(ok3, 'R3', 'smpi_switch_data_segment: loaded == requested -> nothing to do; otherwise mmap(MAP_FIXED) the actor\'s region and record it', where(sw), 'path shapes %s' % sorted(shapes, key=repr),
               key='R3|smpi_switch_data_segment|remap')
+    # whose region is mapped, and which addresses are concerned
+    actor_p = lib.parm_i(sw, 0)
+    okfd = None
+    for p in v.paths():
+        if p.exit in ('noreturn', 'cut'):
+            continue
+        evs = v.path_events(p)
+        mm = [e for e in evs if e.kind == 'call' and e.q == 'mmap']
+        if not mm:
+            continue
+        env = {}
+        for e in evs:
+            if e.kind == 'assign' and e.lhs[0] == 'var':
+                env[e.lhs] = e.rhs
+
+        def res(t, d=0):
+            while t[0] in ('cast', 'conv'):
+                t = t[2]
+            if t[0] == 'var' and t in env and d < 6:
+                return res(env[t], d + 1)
+            if t[0] == 'field':
+                return ('field', res(t[1], d + 1), t[2])
+            if t[0] == 'call':
+                return ('call', t[1], res(t[2], d + 1) if t[2] is not None else None, tuple(res(a, d + 1) for a in t[3]))
+            return t
+        fd = res(mm[0].args[4]) if len(mm[0].args) > 4 else ('none',)
+        good = any(x[0] == 'call' and x[1].endswith('smpi_process_remote') and x[3] and ex.mentions(x[3][0], actor_p) for x in ex.subterms(fd)) and 'file_descriptor' in repr(fd)
+        okfd = good if okfd is None else (okfd and good)
+    ctx.check(bool(okfd), 'R3', 'smpi_switch_data_segment maps the privatised region of the requested actor (smpi_process_remote(actor))', where(sw), '', key='R3|smpi_switch_data_segment|whose region')
+    rng = None
+    for b in v.blocks:
+        c = v.cond_elem(b['id'])
+        if c is None:
+            continue
+        t = v.norm(c)
+        for x in ex.subterms(t):
+            if x[0] == 'bin' and x[1] in ('<', '<=') and 'smpi_data_exe_size' in repr(x):
+                up = x[3]
+                while up[0] in ('cast', 'conv'):
+                    up = up[2]
+                ops = []
+                if up[0] == 'bin' and up[1] == '+':
+                    for y in (up[2], up[3]):
+                        while y[0] in ('cast', 'conv'):
+                            y = y[2]
+                        ops.append(y[2] if y[0] == 'var' else ex.pretty(y))
+                good = x[1] == '<' and sorted(ops) == ['smpi_data_exe_size', 'smpi_data_exe_start'] and 'addr' in repr(x[2])
+                rng = good if rng is None else (rng and good)
+    ctx.check(bool(rng), 'R3', 'smpi_switch_data_segment: an address is concerned iff start <= addr < start + size of the data segment', where(sw), '', key='R3|smpi_switch_data_segment|address range')
     # ---- R4 the data segment is located by comparing the memory map before and after the application is loaded ------------------------------
     ctx.rule('R4', 'mmap privatisation set-up: smpi_prepare_global_memory_segment() (snapshot of the memory map) runs before dlopen() of the application, smpi_backup_global_memory_segment() after it', 1)
     ip = [f for f in P.fns.values() if f['q'].endswith('smpi_init_privatization_no_dlopen') and f.get('blocks')]
